@@ -28,9 +28,22 @@ def main():
     cases = json.load(sys.stdin)
     out = []
     btc = None
+    import hashlib
+    from pycoin.ecdsa.Generator import Generator
+    toy = {}
+
+    def gen_for(cur):
+        if isinstance(cur, str) or cur is None:
+            return gens.get(cur)
+        key = tuple(cur)
+        if key not in toy:
+            p, a, b, gx, gy, n = key
+            toy[key] = Generator(p, a, b, (gx, gy), n, lambda k: b"\x5a" * k)
+        return toy[key]
+
     for c in cases:
         op = c["op"]
-        g = gens.get(c.get("curve"))
+        g = gen_for(c.get("curve"))
         if op == "sign":
             out.append(call(lambda: tuple(g.sign_with_recid(c["d"], c["z"]))))
         elif op == "sign_plain":
@@ -43,7 +56,10 @@ def main():
         elif op == "pub":
             out.append(call(lambda: tuple(c["d"] * g)))
         elif op == "gen_k":
-            out.append(call(lambda: deterministic_generate_k(c["n"], c["d"], c["z"])))
+            if c.get("hashf"):
+                out.append(call(lambda: deterministic_generate_k(c["n"], c["d"], c["z"], getattr(hashlib, c["hashf"]))))
+            else:
+                out.append(call(lambda: deterministic_generate_k(c["n"], c["d"], c["z"])))
         elif op in ("keysign", "keyverify"):
             if btc is None:
                 from pycoin.symbols.btc import network as btc
